@@ -93,6 +93,7 @@ Inductive event :=
 | Tick (now : Z)                       (* one run of the retention service on the node *)
 | Alter (rp d : Z)                     (* ALTER RETENTION POLICY .. DURATION d  (0 = unlimited) *)
 | AddGroup (g : group) (loaded : bool) (* a shard group is created; the node gets its shards *)
+| TickAborted (now : Z)                (* a run of the service whose duration refresh from meta failed: the pass is abandoned, nothing is decided on stale durations *)
 | Restart.                             (* node restart: loaded flags are lost = every shard becomes "not loaded" until opened; durations forgotten *)
 
 (* a deletion record: which shard, at which clock reading, and the policy duration in force in the catalogue at that step *)
@@ -122,6 +123,7 @@ Definition step (w : world) (e : event) : world * list deletion :=
   | Tick now => tick w now
   | Alter rp d => (alter w rp d, [])
   | AddGroup g l => (add_group w g l, [])
+  | TickAborted _ => (w, [])
   | Restart => (restart w, [])
   end.
 
